@@ -242,6 +242,9 @@ def harnesses(tier):
     hs.append((Harness(PROP, "chunk_events_by_key-n2-float-semantics", C.with_floats(h_chunk), dict(n=2, chrono=True), "chunk_events_by_key on 2 events with IEEE double semantics for any float arithmetic, durations whole ms < 2^17 in binary range pieces", split_depth=7, fresh_solver=True), 600))
     hs.append((Harness(PROP, "sort_by_duration-n2-float-semantics", C.with_floats(h_sort), dict(n=2, which="duration"), "sort_by_duration on 2 events with IEEE double semantics for any float arithmetic, durations whole ms < 2^17 in binary range pieces", split_depth=7, fresh_solver=True), 600))
     hs.append((Harness(PROP, "limit-concat-sum-n2-float-semantics", C.with_floats(h_limit_concat_sum), dict(n=2), "limit_events / concat / sum_durations on 2 events with IEEE double semantics for any float arithmetic, durations whole ms < 2^17 in binary range pieces", split_depth=7, fresh_solver=True), 600))
+    if tier == "thorough":
+        hs.append((Harness(PROP, "limit-concat-sum-n2-float-semantics-wide", C.with_floats(h_limit_concat_sum, pieces=40), dict(n=2), "limit_events / concat / sum_durations on 2 events with IEEE double semantics, durations whole ms < 2^40 (~35 years) in binary range pieces", split_depth=7, fresh_solver=True), 3600))
+        hs.append((Harness(PROP, "limit-concat-sum-n3-float-semantics", C.with_floats(h_limit_concat_sum, pieces=12), dict(n=3), "sum_durations on 3 events with IEEE double semantics, durations whole ms < 2^12", split_depth=7, fresh_solver=True), 3600))
     for n, nk, lv, budget in merges:
         hs.append((Harness(PROP, "merge_events_by_keys-n%d-k%d%s" % (n, nk, "-listvalues" if lv else ""), h_merge, dict(n=n, nkeys=nk, listvals=lv),
                            "merge_events_by_keys on %d events, %d keys, symbolic presence pattern and values" % (n, nk), split_depth=8), budget))
